@@ -68,6 +68,17 @@ CONTRACTS = [
         timers={"fire": {"created_in": "source.on_next", "spec": "on_fire", "id": "s.gen", "inv": "current_id == k and k == _id[0]"}},
     ),
     OpContract(
+        name="throttle_with_mapper", props=["C16", "C09"], file=OPS + "_debounce.py", func="throttle_with_mapper_",
+        call="throttle_with_mapper_(mapper)(source)", params={"mapper": "callback:source"},
+        spec="specs.c17:throttle_with_mapper",
+        cells={"has_value": "bool", "value": "val", "_id": "cell:int", "cancelable.current": "optdisp"},
+        inv="has_value == s.has and implies(s.has, same(value, s.val)) and _id[0] == s.gen and s.gen >= 0 "
+            "and (cancelable.current is not None) == (s.gen > 0)",
+        # a throttle that is still subscribed is the one of the newest element: older ones were released when they were replaced
+        families={"throttle": dict(spec=("throttle_next", "throttle_error", "throttle_completed"), id="s.gen", once=True,
+                                   inv="current_id == k and k == _id[0]")},
+    ),
+    OpContract(
         name="sample_observable", props=["C16"], timed=True, file=OPS + "_sample.py", func="sample_observable",
         call="sample_observable(source, sampler)", params={}, sources=("source", "sampler"),
         spec="specs.c17:sample",
